@@ -325,7 +325,7 @@ fn worker(args: &[String]) -> i32 {
       let known = known_findings();
       let budget = if matches_known(&known, &property, &viol.class, &viol.detail).is_some() {
         0
-      } else if matches!(property.as_str(), "C18" | "C19" | "C22" | "C23") {
+      } else if matches!(property.as_str(), "C18" | "C19" | "C21" | "C22" | "C23" | "C24") {
         80
       } else {
         250
